@@ -75,14 +75,14 @@ func genHdrValue(r *hk.Rand) string {
 	return v
 }
 
-var cookieNames = []string{"sid", "a", "b", "theme", "X-1", "k_2"}
+var cookieNames = []string{"sid", "a", "b", "theme", "X-1", "k_2", "sid", "a", "b", "theme", "X-1", "k_2", "sid", "a", "b", "theme", "X-1", "k_2", "a; injected", "a=b", "a b", "", "n\r\nSet-Cookie: x", "é", "a,b"}
 var cookieValues = []string{"1", "abc", "", "a=b", "x/y", "a b", "a,b", "tok%20en", "v-1.2_3~", "!#$&'()*+:<=>?@[]^`{|}", "a=b=c", "-._~", "0"}
 
-// values holding bytes outside the cookie-octet set (net/http drops those bytes: known finding) - kept rare
+// values holding bytes outside the cookie-octet set: the call has to fail
 var badCookieValues = []string{"semi;colon", "quo\"te", "back\\slash", "é", "ctl\x01", "nl\r\nSet-Cookie: x=1", "a; injected=1"}
 
 func genCookieValue(r *hk.Rand) string {
-	if r.Chance(4) {
+	if r.Chance(6) {
 		return hk.Pick(r, badCookieValues)
 	}
 	return hk.Pick(r, cookieValues)
@@ -95,7 +95,7 @@ func genScenario(r *hk.Rand, proto int, thorough bool) scenario {
 	for sc.URL.Class == "malformed" || sc.URL.firstSegEmpty() { // URL refusal is the URL cells' subject
 		sc.URL = genURL(r)
 	}
-	if proto == 1 && r.Chance(6) {
+	if r.Chance(6) {
 		sc.Method = hk.Pick(r, badMethods)
 	}
 	// headers
@@ -368,6 +368,14 @@ func (sc scenario) mustFail() (bool, string) {
 	if sc.Host != "" && !hostSendable(sc.Host) {
 		return true, "host"
 	}
+	for _, c := range append(append([]cookieJ{}, sc.ReqCk...), sc.CliCk...) {
+		if !isTokenName(c.N) {
+			return true, "cookie-name"
+		}
+		if !cookieOctets(c.V) {
+			return true, "cookie-value"
+		}
+	}
 	return false, ""
 }
 
@@ -457,8 +465,6 @@ func classifyAuto(sc scenario, name, value string, described map[string][]string
 	}
 	return false
 }
-
-var cookieAlteredReported int
 
 func runReqCell(r *hk.Run, o *origin.Origin, sc scenario) {
 	pn := fmt.Sprintf("h%d", sc.Proto)
@@ -583,21 +589,11 @@ func runReqCell(r *hk.Run, o *origin.Origin, sc scenario) {
 				}
 			}
 		}
-		cookiesOK := true
 		for _, c := range append(append([]cookieJ{}, sc.ReqCk...), sc.CliCk...) {
 			expCk = append(expCk, c.N+"="+c.V)
-			if !cookieOctets(c.V) {
-				cookiesOK = false
-			}
 		}
 		if strings.Join(gotCk, "|") != strings.Join(expCk, "|") {
-			if cookiesOK {
-				fail("cookies-altered", "cookies differ from the described ones", gotCk, expCk)
-			} else if cookieAlteredReported++; cookieAlteredReported > 40 {
-				r.Count("req.cookie-value-altered.not-reported-again") // keep the 200-failure budget for other failures
-			} else {
-				fail("cookie-value-altered:invalid-octet", "a cookie value holding a byte outside the cookie-octet set was neither refused nor sent as given", gotCk, expCk)
-			}
+			fail("cookies-altered", "cookies differ from the described ones", gotCk, expCk)
 		}
 		if !bodySame {
 			fail("body-altered", fmt.Sprintf("body differs (%d bytes seen, %d described)", len(obs.Body), len(want)), nil, nil)
